@@ -479,7 +479,7 @@ impl<'a, Q> AttributeQuerier<'a, Q> {
     pub fn attributes(&self, a: String, p: Option<u8>) -> (r: StdResult<QueryAttributesResponse>)
         ensures match attrs_of(a@) {
             Some(names) => r is Ok && r->Ok_0.attributes@.len() == names.len()
-                && forall|i: int| 0 <= i < names.len() ==> (#[trigger] r->Ok_0.attributes@[i]).name@ == names[i],
+                && forall|i: int| #![trigger r->Ok_0.attributes@[i]] #![trigger names[i]] 0 <= i < names.len() ==> r->Ok_0.attributes@[i].name@ == names[i],
             None => r is Err }
     { unimplemented!() }
 }
